@@ -61,6 +61,8 @@ pub struct FnContract {
     pub hints: Vec<Hint>,
     /// proof text executed at every exit of the function
     pub exit_ghost: Vec<String>,
+    /// `once-true <callee> [ID props]`: after a call of <callee> returned true no further call of it is made
+    pub once_true: Option<(String, Clause)>,
     /// closure ordinal -> (return type, ensures clause)
     pub closures: BTreeMap<usize, (String, Clause)>,
     pub attrs: Vec<String>, // extra verifier attributes, e.g. exec_allows_no_decreases_clause
@@ -92,7 +94,7 @@ pub struct Unit {
 
 const FN_KEYS: &[&str] = &[
     "emit-as", "fx", "ret", "requires", "ensures", "decreases", "loop", "bind", "bind?", "exit-assert",
-    "hint", "attr", "shape", "exit-assert-ret", "exit-ghost", "closure",
+    "hint", "attr", "shape", "exit-assert-ret", "exit-ghost", "closure", "once-true",
 ];
 const TOP_KEYS: &[&str] = &["unit", "fxcalls", "guardfn", "tryguardfn", "copy", "fn", "prelude", "typerewrite", "require-text"];
 
@@ -266,6 +268,12 @@ pub fn parse(text: &str, path: &str) -> Unit {
                         let (mut cl, first) = parse_tag(e, ln);
                         cl.text = take_text(&lines, &mut i, first);
                         c.closures.insert(n, (ty.trim().to_string(), cl));
+                    }
+                    "once-true" => {
+                        let (name, tail) = rest.split_once(char::is_whitespace).unwrap_or_else(|| panic!("{}:{}: once-true <callee> [ID props]", path, ln));
+                        let (mut cl, _first) = parse_tag(tail, ln);
+                        cl.text = "!once__".to_string();
+                        c.once_true = Some((name.to_string(), cl));
                     }
                     "exit-ghost" => {
                         let txt = take_text(&lines, &mut i, rest.trim_start_matches(':').trim().to_string());
